@@ -280,9 +280,12 @@ def diff_problems(a, b, rel=Fraction(1, 10**9), geometry_equal=None, compare_com
 
 
 def _cmp_comments(d, w, x, y):
-    if [c.strip() for c in x["dollar"]] != [c.strip() for c in y["dollar"]]:
+    # the comments of one card are compared as a multiset: MontePy prints the importances of a cell together where
+    # the first one stands, so a comment behind a later `imp:` entry moves with it (nothing dropped or duplicated,
+    # which is what the property asks; the order inside one card is not part of it)
+    if sorted(c.strip() for c in x["dollar"]) != sorted(c.strip() for c in y["dollar"]):
         d.append(("comment-dollar", w, (x["dollar"], y["dollar"])))
-    if [c.strip() for c in x["ccomments"]] != [c.strip() for c in y["ccomments"]]:
+    if sorted(c.strip() for c in x["ccomments"]) != sorted(c.strip() for c in y["ccomments"]):
         d.append(("comment-c", w, (x["ccomments"], y["ccomments"])))
 
 
